@@ -459,6 +459,84 @@ def r3_splice(program, folder, rep):
     rep.floor("C20-R3", 4)
 
 
+def r3_pack_fields(program, rep):
+    """Struct.pack lays down the default of every field: the store of a
+    field's packed default is on every path through the loop over the
+    fields, or is skipped only for fields that end beyond a length limit."""
+    fn = program.get(SF + ":Struct.pack")
+    inst = qual(fn)
+    T = Terms(fn)
+    cfg = T.cfg
+    from ..terms import stores as stores_
+    cand = []
+    for n, st, base, key, val in stores_(T):
+        if key[0] != "slice":
+            continue
+        lo = key[1]
+        if lo[0] == "attr" and lo[2] == "offset" and lo[1][0] == "elem" and \
+                any(x == ("attr", ("param", "self"), "fields")
+                    for x in subterms(lo[1])):
+            cand.append((n, st, lo[1], key))
+    if len(cand) != 1:
+        raise AnalysisError("Struct.pack: the store of a field's packed "
+                            "default was not found in the form analysed")
+    n, st, E, key = cand[0]
+    loop = getattr(st, "_parent", None)
+    while loop is not None and not isinstance(loop, (ast.For, ast.While)):
+        loop = getattr(loop, "_parent", None)
+    heads = [h for h in cfg.nodes if h.kind == "iter" and h.ast is loop]
+    if len(heads) != 1:
+        raise AnalysisError("Struct.pack: the loop over the fields was not "
+                            "found")
+    head = heads[0]
+    every = cfg.must_pass(head, lambda x: x is n, targets=[head])
+    if every:
+        rep.check(True, "C20-R3", inst, "the packed default of every field "
+                  "is stored into the data on every pass of the loop over "
+                  "the fields", construct="field store", node=st)
+        return
+    # fields may be left out of a shortened packing only when they end
+    # beyond the limit (or start at/after it)
+    END = key[2]
+    OFF = key[1]
+    skips = [x for x in cfg.nodes if isinstance(x.ast, ast.Continue) and
+             x.kind == "stmt" and not cfg.dominates(n, x)]
+    if not skips or not cfg.must_pass(
+            head, lambda x: x is n or x in skips, targets=[head]):
+        raise AnalysisError("Struct.pack: a field can be skipped on a path "
+                            "these rules do not analyse")
+    bad = None
+    for sk in skips:
+        facts = T.all_facts(sk)
+        verdict = None
+        for f, pol in facts:
+            if f[0] != "cmp" or f[1] not in ("Lt", "LtE"):
+                continue
+            # canonical facts: (op, a, b) with polarity; express as a < / <= b
+            op, a, b = f[1], f[2], f[3]
+            if not pol:
+                op, a, b = ("LtE" if op == "Lt" else "Lt"), b, a
+            if b == END and a[0] == "param":
+                verdict = op == "Lt" if verdict is None else verdict
+            elif b == OFF and a[0] == "param":
+                verdict = True if verdict is None else verdict
+        if verdict is None:
+            raise AnalysisError("Struct.pack: the condition under which a "
+                                "field is left out was not understood")
+        if not verdict:
+            bad = sk
+    rep.check(bad is None, "C20-R3", inst, "a field is left out of a "
+              "shortened packing only when it ends beyond the limit",
+              construct="field store", node=(bad.ast if bad else st),
+              fail="Struct.pack leaves out a field that ends exactly at the "
+                   "length limit (limit <= end of field): its default is "
+                   "missing from the packed bytes although it lies wholly "
+                   "within them")
+
+
+r3_pack_fields.helper_aware = True
+
+
 def r4_packet(program, folder, rep):
     fn = program.get(MOD + ":boot_packet")
     inst = qual(fn)
@@ -558,6 +636,7 @@ def check(program, rep):
     rep.guard("C20-R1", r1_effects, program, rep)
     rep.guard("C20-R2", r2_sequence, program, folder, rep)
     rep.guard("C20-R3", r3_splice, program, folder, rep)
+    rep.guard("C20-R3", r3_pack_fields, program, rep)
     rep.guard("C20-R4", r4_packet, program, folder, rep)
     return finish(rep, program, EXPLANATION, NOT_DECIDED,
                   trusted=["effects.py transfer functions",
